@@ -92,10 +92,14 @@ impl Header {
         // value, so a future REPE revision can assign meaning to these bits
         // without breaking this receiver.
 
-        let expected = HEADER_SIZE as u64 + query_length + body_length;
-        if length != expected {
+        // The two length fields are peer-controlled: add them checked, so a pair
+        // whose sum does not fit in 64 bits is a mismatch rather than an overflow.
+        let expected = (HEADER_SIZE as u64)
+            .checked_add(query_length)
+            .and_then(|n| n.checked_add(body_length));
+        if expected != Some(length) {
             return Err(RepeError::LengthMismatch {
-                expected,
+                expected: expected.unwrap_or(u64::MAX),
                 got: length,
             });
         }
